@@ -361,7 +361,7 @@ func runHarness(ld *Loaded, cfg Config, pkg *ssa.Package, fn *ssa.Function, work
 					for _, n := range names {
 						mk += fmt.Sprintf("%s=%d,", n, v.Model[n])
 					}
-					if seenViol[key] < 3 && seenViol[mk] == 0 {
+					if seenViol[key] < 6 && seenViol[mk] == 0 {
 						seenViol[key]++
 						seenViol[mk]++
 						hr.Violations = append(hr.Violations, v)
